@@ -221,6 +221,11 @@ def work_unary_float(shard):
 # ---------------------------------------------------------------------------
 # commutativity over the C04 pair product
 
+def commute_mants(fmt, quick):
+    m = _c04.addsub_mants(fmt, quick)
+    return mbf.pick(m, 44 if fmt is mbf.SNG else 32) if quick else m
+
+
 def work_commute(shard):
     size, quick, d, e = shard
     fmt = FMT[size]
@@ -230,7 +235,7 @@ def work_commute(shard):
     xbuf, ybuf = X._buffer, Y._buffer
     code, word = fmt.code, fmt.word
     pack = struct.pack_into
-    mans = _c04.addsub_mants(fmt, quick)
+    mans = commute_mants(fmt, quick)
     n = 0
     t = fmt.name
     for sa, sb in _c04.SIGNS4:
@@ -272,12 +277,13 @@ def value_sets(quick):
     """Boundary value sets per type: list of (size, bytes)."""
     ints = [num.s16(u) for u in num.int_boundary_set()]
     if quick:
-        ints = mbf.pick(sorted(ints), 90)
+        ints = mbf.pick(sorted(ints), 70)
     for must in (-32768, -32767, -1, 0, 1, 2, 32767):
         if must not in ints:
             ints.append(must)
     out_i = [(2, struct.pack('<h', i)) for i in sorted(ints)]
-    exps_s = (1, 2, 0x60, 0x7f, 0x80, 0x81, 0x90, 0x91, 0x98, 0x99, 0xa1, 0xfe, 0xff)
+    exps_s = (1, 0x60, 0x80, 0x81, 0x90, 0x91, 0x98, 0xa1, 0xfe, 0xff) if quick else \
+        (1, 2, 0x60, 0x7f, 0x80, 0x81, 0x90, 0x91, 0x98, 0x99, 0xa1, 0xfe, 0xff)
     m24 = mbf.mant_set(24, 0)
     m56 = mbf.mant_set(56, 0)
     if quick:
@@ -408,7 +414,7 @@ def legs(ctx):
     for fmt in (mbf.SNG, mbf.DBL):
         ds = _c04.addsub_ds(fmt, q)
         shards = [(fmt.size, q, d, e) for d in ds for e in _c04.addsub_bases(d)]
-        nm = len(_c04.addsub_mants(fmt, q))
+        nm = len(commute_mants(fmt, q))
         out.append(Leg('commute-' + fmt.name, shards, work_commute, exhaustive=False, bound=(
             '%d x %d mantissa pairs x exponent differences %s x base exponent bytes {1,2,80h,254-d,255-d} x 4 sign '
             'combinations x {+,*} in both orders' % (nm, nm, _c04._ranges(ds)))))
